@@ -779,6 +779,18 @@ pub fn gen(rng: &mut ChaCha20Rng, n: usize, thorough: bool) -> Vec<Case> {
             _ => r32(rng).map(|x| x >> 1).to_vec(),
         };
         out.push(Case { text: format!("{} {} {} {} {}", head("elip", &b), hx(&b), if sel < 2 { hex(&asset) } else { "-".into() }, hx(&value), sel), tags: vec!["src:elip".into(), format!("elip:{}", sel), "mode:elip".into()], nontrivial: true });
+        // the SECOND write for the same id / map: the PSET already carries a record written through the same accessor with other content, the case then
+        // writes `value`; the record read back (and after a round trip) must be the new one (seeded C07-r6-3: a later write silently dropped)
+        if let Ok(mut p) = deserialize::<Pset>(&b) {
+            match sel {
+                0 => { let _ = p.add_asset_metadata(aid(&asset).unwrap(), &AssetMetadata::new("an earlier contract".into(), OutPoint::new(Txid::from_byte_array(r32(rng)), 7))); }
+                1 => { let _ = p.add_token_metadata(aid(&asset).unwrap(), &TokenMetadata::new(rasset_id(rng), false)); }
+                2 => { let _ = p.inputs_mut()[0].set_abf(AssetBlindingFactor::from_slice(&[0x11; 32]).unwrap()); }
+                _ => { let _ = p.outputs_mut()[0].set_abf(AssetBlindingFactor::from_slice(&[0x12; 32]).unwrap()); }
+            }
+            let b2 = serialize(&p);
+            out.push(Case { text: format!("{} {} {} {} {}", head("elip", &b2), hx(&b2), if sel < 2 { hex(&asset) } else { "-".into() }, hx(&value), sel), tags: vec!["src:elip".into(), format!("elip:{}", sel), "elip:second-write".into(), "mode:elip".into()], nontrivial: true });
+        }
     }
     out
 }
